@@ -961,8 +961,43 @@ func ruleC07Subgroups(c *Ctx) {
 			}
 		}
 	}
-	if n < 2 {
-		c.violate("C07.subgroups", "loops", collector.Pos(), name, fmt.Sprintf("expected the two loops over a group's subgroups (with and without a filter of its own), found %d", n))
+	// with and without a filter of its own, a group answers only after its
+	// subgroups were asked: no return is reachable around the loops, except
+	// the one that reports "not matched" when the group's own filter rejects
+	heads := map[*ssa.BasicBlock]bool{}
+	for _, l := range loopsOf(collector) {
+		if c.rangeOverField(collector, l, "subgroups") {
+			heads[l.Head] = true
+		}
+	}
+	around := false
+	if n > 0 && len(collector.Blocks) > 0 {
+		seen := map[*ssa.BasicBlock]bool{collector.Blocks[0]: true}
+		work := []*ssa.BasicBlock{collector.Blocks[0]}
+		for len(work) > 0 {
+			b := work[len(work)-1]
+			work = work[:len(work)-1]
+			if heads[b] {
+				continue
+			}
+			if ret, ok := b.Instrs[len(b.Instrs)-1].(*ssa.Return); ok && len(ret.Results) > 0 {
+				if k, isConst := boolConstOf(ret.Results[0]); !isConst || k {
+					around = true
+					c.violate("C07.subgroups", "loops", ret.Pos(), name, "a group can answer \"matched\" without its subgroups having been asked: references would be missing from the tallies of the subgroups")
+				}
+			}
+			for _, s := range b.Succs {
+				if !seen[s] {
+					seen[s] = true
+					work = append(work, s)
+				}
+			}
+		}
+	}
+	if n < 1 {
+		c.violate("C07.subgroups", "loops", collector.Pos(), name, "no loop over a group's subgroups")
+	} else if !around {
+		c.hold("C07.subgroups", "loops", collector.Pos(), "the subgroups are asked on every path to an answer other than the own filter's rejection")
 	}
 }
 
